@@ -304,7 +304,7 @@ theorem PQInv.preserved : Preserved PQInv where
   same hs h := PQInv.of_eq hs.2.2.2.2.1 h
   tick _ h := h
   finish w p v st h := PQInv.of_eq (by simp) h
-  clear w p f _ _ h := PQInv.of_eq (by simp) h
+  clear w p f _ _ _ h := PQInv.of_eq (by simp) h
   exec w p c _ h := by
     by_cases hm : (cmdMask c).pqs = false
     · exact PQInv.of_eq ((execCmd_fp w p c).2.2.2.2.1 hm) h
